@@ -2211,6 +2211,18 @@ impl StorageEngine {
         0
     }
 
+    /// Position of an element in the fixed order cursor iterations walk in. A cursor is the
+    /// hash of the next element to visit, so elements added or deleted between two calls do
+    /// not shift the elements still to come (an index into a sorted list does).
+    fn scan_hash(bytes: &[u8]) -> u64 {
+        let mut hash: u64 = 0xcbf29ce484222325;
+        for &byte in bytes {
+            hash ^= byte as u64;
+            hash = hash.wrapping_mul(0x100000001b3);
+        }
+        hash
+    }
+    
     /// Scan operations - optimized for sharded access, NO access time tracking
     pub fn scan(&self, db: DatabaseIndex, cursor: u64, pattern: Option<&[u8]>, type_filter: Option<&str>, count: usize) -> Result<(u64, Vec<Vec<u8>>)> {
         let database = self.databases.get(db).ok_or(StorageError::InvalidDatabase)?;
@@ -2246,9 +2258,9 @@ impl StorageEngine {
             }
         }
         
-        all_keys.sort();
+        all_keys.sort_by_cached_key(|key| (Self::scan_hash(key), key.clone()));
         
-        let start_pos = if cursor == 0 { 0 } else { cursor as usize };
+        let start_pos = all_keys.partition_point(|key| Self::scan_hash(key) < cursor);
         if start_pos >= all_keys.len() && !all_keys.is_empty() {
             return Ok((0, Vec::new()));
         }
@@ -2285,7 +2297,7 @@ impl StorageEngine {
         let next_cursor = if current_pos >= all_keys.len() {
             0
         } else {
-            current_pos as u64
+            Self::scan_hash(&all_keys[current_pos])
         };
         
         Ok((next_cursor, matching_keys))
@@ -2309,9 +2321,9 @@ impl StorageEngine {
                 }
                 
                 let mut fields: Vec<Vec<u8>> = hash.keys().cloned().collect();
-                fields.sort();
+                fields.sort_by_cached_key(|field| (Self::scan_hash(field), field.clone()));
                 
-                let start_pos = if cursor == 0 { 0 } else { cursor as usize };
+                let start_pos = fields.partition_point(|field| Self::scan_hash(field) < cursor);
                 if start_pos >= fields.len() && !fields.is_empty() {
                     return Ok((0, Vec::new()));
                 }
@@ -2351,7 +2363,7 @@ impl StorageEngine {
                 let next_cursor = if current_pos >= fields.len() {
                     0
                 } else {
-                    current_pos as u64
+                    Self::scan_hash(&fields[current_pos])
                 };
                 
                 Ok((next_cursor, result))
@@ -2376,9 +2388,9 @@ impl StorageEngine {
                 }
                 
                 let mut members: Vec<Vec<u8>> = set.iter().cloned().collect();
-                members.sort();
+                members.sort_by_cached_key(|member| (Self::scan_hash(member), member.clone()));
                 
-                let start_pos = if cursor == 0 { 0 } else { cursor as usize };
+                let start_pos = members.partition_point(|member| Self::scan_hash(member) < cursor);
                 if start_pos >= members.len() && !members.is_empty() {
                     return Ok((0, Vec::new()));
                 }
@@ -2414,7 +2426,7 @@ impl StorageEngine {
                 let next_cursor = if current_pos >= members.len() {
                     0
                 } else {
-                    current_pos as u64
+                    Self::scan_hash(&members[current_pos])
                 };
                 
                 Ok((next_cursor, result))
@@ -2440,13 +2452,13 @@ impl StorageEngine {
                     items.push((member, score));
                 }
                 
-                items.sort_by(|a, b| a.0.cmp(&b.0));
+                items.sort_by_cached_key(|item| (Self::scan_hash(&item.0), item.0.clone()));
                 
                 if items.len() <= max_scan_count && cursor == 0 && pattern.is_none() {
                     return Ok((0, items));
                 }
                 
-                let start_pos = if cursor == 0 { 0 } else { cursor as usize };
+                let start_pos = items.partition_point(|item| Self::scan_hash(&item.0) < cursor);
                 if start_pos >= items.len() && !items.is_empty() {
                     return Ok((0, Vec::new()));
                 }
@@ -2482,7 +2494,7 @@ impl StorageEngine {
                 let next_cursor = if current_pos >= items.len() {
                     0
                 } else {
-                    current_pos as u64
+                    Self::scan_hash(&items[current_pos].0)
                 };
                 
                 Ok((next_cursor, result))
